@@ -36,9 +36,10 @@ Theorem C14_conservation : forall p l ops i,
 Proof. exact conservation. Qed.
 Print Assumptions C14_conservation.
 
-(* Claiming what has vested always succeeds, in every reachable state, at every height, provided
-   governance never configured a zero-length schedule (NumBlocks = 0 is accepted by
-   VestingInfo.Validate and makes VestedSoFar divide by zero: see DESIGN.md, finding C14-numblocks0). *)
+(* Claiming what has vested always succeeds, in every reachable state, at every height, and pays exactly the drop in
+   what is outstanding. (Stated for histories in which governance keeps NumBlocks > 0, because the accounting of
+   [outstanding] below is proved for live schedules; that the claim itself cannot fail for ANY schedule length is
+   C14_claim_never_fails.) *)
 Theorem C14_claim_succeeds : forall p l ops i h,
   wf_params p -> 0 < p_num p -> Forall (fun '(e, _) => 0 <= e) l -> Forall gov_ok ops ->
   let s := run (init_state p l) ops in
@@ -48,6 +49,18 @@ Theorem C14_claim_succeeds : forall p l ops i h,
     a_elys (get_acct s' i) - a_elys (get_acct s i) = outstanding (get_acct s i) - outstanding (get_acct s' i).
 Proof. exact claim_succeeds. Qed.
 Print Assumptions C14_claim_succeeds.
+
+(* ... and since fix: 3c63217 (a zero-block schedule is fully vested instead of dividing by zero) the claim handler
+   cannot fail at all: for EVERY account state, every height and every schedule length, including NumBlocks = 0. *)
+Theorem C14_claim_never_fails : forall h a, exists a', claim h a = Ok a'.
+Proof. exact claim_total. Qed.
+Print Assumptions C14_claim_never_fails.
+
+(* a zero-block schedule is released in full by the first claim *)
+Theorem C14_zero_block_schedule_released_at_once : forall h v, wf_entry v -> v_num v = 0 ->
+  claim_entry true h v = Ok (v_total v - v_claimed v, mkV (v_total v) (v_total v) (v_start v) (v_num v)).
+Proof. exact claim_entry_zero. Qed.
+Print Assumptions C14_zero_block_schedule_released_at_once.
 
 (* Once every schedule of the account has elapsed one claim pays out everything outstanding. *)
 Theorem C14_complete_at_end : forall a h,
